@@ -329,4 +329,14 @@ theorem sysStep_edges (ls : List Loop) (s : Sys) (a : Act) :
   rw [this]
   exact history_stepOK _ _
 
+/-! ### CAS retries -/
+
+theorem casOutcome_last (f : PDesc → Except C15.Err (Option PDesc)) : ∀ (stale : List PDesc) (fresh : PDesc),
+    casOutcome f (stale ++ [fresh]) = some (f fresh)
+  | [], _ => rfl
+  | [a], fresh => rfl
+  | a :: b :: stale, fresh => by
+    have := casOutcome_last f (b :: stale) fresh
+    simpa [casOutcome] using this
+
 end PfC15
